@@ -20,7 +20,7 @@ func thru() {
 	idx := make([]int, 3)
 	rad := []int{len(gaps), len(gaps), len(gaps)}
 	for {
-		for variant := 0; variant < 3; variant++ {
+		for variant := 0; variant < 4; variant++ {
 			ctx.Eval()
 			ctx.Add("thru_histories", 1)
 			drv := testdrv.New("thru")
@@ -39,6 +39,8 @@ func thru() {
 					case 2: // the answer arrives in two pieces
 						out.Send([]byte{m[0], m[1] + 64})
 						out.Send([]byte{m[2]})
+					case 3: // the answer is data bytes only: running status of the message being handled
+						out.Send([]byte{m[1] + 64, m[2]})
 					}
 				}
 			})
@@ -63,7 +65,7 @@ func thru() {
 				want = append(want, ls.Delivered{Msg: msg, TS: acc})
 				if i < 2 {
 					switch variant {
-					case 0, 2:
+					case 0, 2, 3:
 						want = append(want, ls.Delivered{Msg: []byte{msg[0], key + 64, 100}, TS: acc})
 					case 1:
 						want = append(want, ls.Delivered{Msg: []byte{0x80 | msg[0]&0x0F, key + 64, 0}, TS: acc},
@@ -100,4 +102,80 @@ func thru() {
 			break
 		}
 	}
+}
+
+// refused: histories of sleeping, sending, closing and re-opening the out port
+// while a listener is active. A Send that is refused (port closed) delivers
+// nothing and changes nothing: every delivered message carries the time that
+// has passed since the listener started.
+func refused() {
+	const nOps = 5 // 0 sleep 5 ms, 1 sleep 10 ms, 2 send, 3 close out, 4 open out
+	maxLen := ctx.Pick(6, 7)
+	path := make([]int, 0, maxLen)
+	var rec func()
+	run := func() {
+		ctx.Eval()
+		ctx.Add("refused_send_histories", 1)
+		drv := testdrv.New("refused")
+		ins, _ := drv.Ins()
+		outs, _ := drv.Outs()
+		out := outs[0]
+		var got []ls.Delivered
+		stop, err := midi.ListenTo(ins[0], func(m midi.Message, ts int32) { got = append(got, ls.Delivered{Msg: append([]byte(nil), m...), TS: ts}) })
+		if err != nil {
+			ctx.Guard(false, "refused: ListenTo: %v", err)
+			return
+		}
+		open := false
+		var acc int32
+		var want []ls.Delivered
+		sig, what := "", ""
+		for i, op := range path {
+			switch op {
+			case 0, 1:
+				d := int32(5 + 5*op)
+				acc += d
+				drv.Sleep(time.Duration(d) * time.Millisecond)
+			case 2:
+				msg := []byte{0x90, byte(i), 1}
+				e := out.Send(msg)
+				if open {
+					want = append(want, ls.Delivered{Msg: msg, TS: acc})
+				}
+				if (e == nil) != open {
+					sig, what = "refused:send-error", fmt.Sprintf("Send with the out port open=%v returned %v", open, e)
+				}
+			case 3:
+				out.Close()
+				open = false
+			case 4:
+				out.Open()
+				open = true
+			}
+		}
+		stop()
+		if sig == "" && ls.RenderDeliveries(got) != ls.RenderDeliveries(want) {
+			sig, what = "refused:deliveries", fmt.Sprintf("delivered [%s], expected [%s]", ls.RenderDeliveries(got), ls.RenderDeliveries(want))
+		}
+		if sig != "" && ctx.SigCount(sig) < 10 {
+			ctx.Violation(sig, map[string]interface{}{"kind": "refused", "ops": append([]int(nil), path...), "legend": "0 sleep 5 ms, 1 sleep 10 ms, 2 send, 3 close out, 4 open out", "what": what})
+		}
+		if len(want) > 1 {
+			ctx.NontrivialN(1)
+		}
+	}
+	rec = func() {
+		if len(path) > 0 && path[len(path)-1] == 2 {
+			run() // histories that end in a Send
+		}
+		if len(path) == maxLen {
+			return
+		}
+		for op := 0; op < nOps; op++ {
+			path = append(path, op)
+			rec()
+			path = path[:len(path)-1]
+		}
+	}
+	rec()
 }
